@@ -1,6 +1,7 @@
 package main
 
 import (
+	"strconv"
 	"bytes"
 	"encoding/json"
 	"fmt"
@@ -168,8 +169,18 @@ func (c *Ctx) checkMarshalOf(pj *simdjson.ParsedJson, nd bool, info map[string]i
 	}
 	got, gerr := dumpDoc(re.PJ)
 	if gerr != nil || numericDump(got) != numericDump(want) {
-		c.Violate("marshal", "marshalled text denotes a different document", "marshal-doc", mk(map[string]interface{}{"out": trunc(printable(out), 300), "want": trunc(want, 300), "got": trunc(got, 300)}))
-		return
+		sig := "marshal-doc"
+		// known finding K4: a float with an integral value of magnitude >= 2^53 prints (ES6, as
+		// encoding/json) without fraction or exponent, e.g. 3682980542527923700 for
+		// 3682980542527923712; that text re-parses as an INTEGER (C03) whose exact value differs
+		// from the float's, although it converts back to the same float
+		if gerr == nil && onlyBigFloatAsInt(want, got) {
+			sig = "marshal-bigfloat-reparsed-as-int"
+		}
+		c.Violate("marshal", "marshalled text denotes a different document", sig, mk(map[string]interface{}{"out": trunc(printable(out), 300), "want": trunc(want, 300), "got": trunc(got, 300)}))
+		if sig == "marshal-doc" {
+			return
+		}
 	}
 	// also judged by the specification's recogniser
 	if len(out) < 20000 {
@@ -234,6 +245,32 @@ func checkC10(c *Ctx) {
 			doc = []byte(sb.String())
 		case i%13 == 0:
 			doc = []byte("[" + strings.Join(numPool, ",") + "]")
+		case i%5 == 1:
+			// floats from every binade (odd and even mantissas, boundaries), written with 17
+			// significant digits so that the parser yields exactly that float: the number printed
+			// must denote the float the iterator exposes
+			var el []string
+			for k := 0; k < 24; k++ {
+				e := uint64(1 + r.Intn(2046))
+				if k%3 == 0 {
+					e = uint64(1023 + 50 + r.Intn(22)) // 2^50 .. 2^71: the plain-decimal Ryu path
+				}
+				m := r.U64() & (1<<52 - 1)
+				switch r.Intn(6) {
+				case 0:
+					m = 0
+				case 1:
+					m = 1<<52 - 1
+				case 2:
+					m |= 1
+				}
+				f := math.Float64frombits(e<<52 | m)
+				if r.Chance(1, 5) {
+					f = -f
+				}
+				el = append(el, strconv.FormatFloat(f, 'e', 17, 64))
+			}
+			doc = []byte("[" + strings.Join(el, ",") + "]")
 		default:
 			doc = genDoc(r, smallOpts(r))
 		}
@@ -315,6 +352,11 @@ func checkC10(c *Ctx) {
 							}
 						}()
 					}
+					// judged without the model: Array.MarshalJSON prints the same value as the
+					// element iterator standing on that array
+					if aerr == nil && implA != impl {
+						c.Violate("marshal", "Array.MarshalJSON differs from MarshalJSON of the iterator on the same array", "marshal-array-vs-iter", map[string]interface{}{"doc_text": info["doc_text"], "history": info["history"], "position": k, "array": trunc(implA, 300), "iter": trunc(impl, 300)})
+					}
 					reqs = append(reqs, fmt.Sprintf("marshal %s %d 2", st, k))
 					ia := implA
 					pends = append(pends, func(ans string) {
@@ -338,4 +380,80 @@ func checkC10(c *Ctx) {
 	for j, a := range ans {
 		pends[j](a)
 	}
+}
+
+// dumpTokens splits a canonical dump into its tokens
+func dumpTokens(d string) []string {
+	var out []string
+	for i := 0; i < len(d); {
+		switch d[i] {
+		case 'i', 'u', 'd', 's', 'k':
+			j := strings.IndexByte(d[i:], ';')
+			if j < 0 {
+				return append(out, d[i:])
+			}
+			out = append(out, d[i:i+j+1])
+			i += j + 1
+		default:
+			out = append(out, d[i:i+1])
+			i++
+		}
+	}
+	return out
+}
+
+// onlyBigFloatAsInt: the two dumps differ, and every difference is a float of
+// integral value with magnitude >= 2^53 on the left against an integer on the
+// right that converts (correctly rounded) to exactly that float
+func onlyBigFloatAsInt(want, got string) bool {
+	a, b := dumpTokens(want), dumpTokens(got)
+	if len(a) != len(b) {
+		return false
+	}
+	seen := false
+	for i := range a {
+		if a[i] == b[i] {
+			continue
+		}
+		if len(a[i]) > 2 && len(b[i]) > 2 && a[i][0] == 'd' && b[i][0] == 'd' {
+			// same bits, different flag (a float >= 2^64 printed as digits re-parses with the
+			// overflowed-integer flag): numerically equal
+			if strings.SplitN(a[i], ":", 2)[0] == strings.SplitN(b[i], ":", 2)[0] {
+				continue
+			}
+			return false
+		}
+		if len(a[i]) < 2 || a[i][0] != 'd' || len(b[i]) < 2 || (b[i][0] != 'i' && b[i][0] != 'u') {
+			// an integer on both sides, or a float below 2^53 against its exact integer: equal values pass
+			if numericDump(a[i]) == numericDump(b[i]) {
+				continue
+			}
+			return false
+		}
+		if numericDump(a[i]) == numericDump(b[i]) {
+			continue
+		}
+		hexs := a[i][1 : len(a[i])-1]
+		if k := strings.IndexByte(hexs, ':'); k >= 0 {
+			hexs = hexs[:k]
+		}
+		var bits uint64
+		if _, err := fmt.Sscanf(hexs, "%x", &bits); err != nil {
+			return false
+		}
+		f := math.Float64frombits(bits)
+		if math.IsNaN(f) || math.IsInf(f, 0) || math.Abs(f) < 1<<53 || f != math.Trunc(f) {
+			return false
+		}
+		n, ok := new(big.Int).SetString(b[i][1:len(b[i])-1], 10)
+		if !ok {
+			return false
+		}
+		back, _ := new(big.Float).SetInt(n).Float64()
+		if back != f {
+			return false
+		}
+		seen = true
+	}
+	return seen
 }
